@@ -9,11 +9,45 @@ open Pyab Pyab.PyStrLit
 
 /-- every string — quotes, backslashes, control characters, non-ASCII, unassigned
     code points — rendered with `repr()` is consumed by the Python tokenizer as one literal
-    that decodes to the same string, with nothing left over and nothing swallowed -/
-theorem C05_string_roundtrip (printable : Nat → Bool) (s : String) (rest : List Char) :
+    that decodes to the same string, with nothing left over and nothing swallowed.
+
+    Side condition `hrest` (decidable; needed only for the empty string): this is Python's
+    triple-quote rule.  `repr("")` is `''`, and `''` immediately followed by a third `'`
+    is the opening of a triple-quoted string, not an empty literal — without `hrest` the
+    statement is false (`C05_empty_then_quote_fails` below).  The generator always follows
+    a rendered literal by `)`, `,`, ` `, `]` or `+`, never by a quote, so the condition
+    always holds for generated code (`C05_string_roundtrip_generated`). -/
+theorem C05_string_roundtrip (printable : Nat → Bool) (s : String) (rest : List Char)
+    (hrest : s = "" → rest.head? ≠ some '\'') :
     pyScanStr ((pyReprStr printable s).toList ++ rest) = some (s, rest) := by
-  have := Proofs.scan_repr printable s.toList rest
+  have := Proofs.scan_repr printable s.toList rest (fun h => hrest (by simpa using h))
   simpa [pyReprStr] using this
+
+/-- the side condition of `C05_string_roundtrip` is necessary: `''` followed by `'` is
+    the start of a triple-quoted string -/
+theorem C05_empty_then_quote_fails (printable : Nat → Bool) (rest : List Char) :
+    pyScanStr ((pyReprStr printable "").toList ++ '\'' :: rest) = none := by
+  have := Proofs.scan_repr_nil_quote printable rest
+  simpa [pyReprStr] using this
+
+/-- nothing follows the literal: unconditional -/
+theorem C05_string_roundtrip_eof (printable : Nat → Bool) (s : String) :
+    pyScanStr (pyReprStr printable s).toList = some (s, []) := by
+  have := C05_string_roundtrip printable s [] (fun _ => by simp)
+  simpa using this
+
+/-- the literal is followed by any character other than `'`: unconditional in `s` -/
+theorem C05_string_roundtrip_cons (printable : Nat → Bool) (s : String) (c : Char)
+    (rest : List Char) (hc : c ≠ '\'') :
+    pyScanStr ((pyReprStr printable s).toList ++ c :: rest) = some (s, c :: rest) :=
+  C05_string_roundtrip printable s (c :: rest) (fun _ => by simpa using hc)
+
+/-- the contexts the generator actually produces after a rendered literal -/
+theorem C05_string_roundtrip_generated (printable : Nat → Bool) (s : String) (c : Char)
+    (rest : List Char) (hc : c ∈ [')', ',', ' ', ']', '+']) :
+    pyScanStr ((pyReprStr printable s).toList ++ c :: rest) = some (s, c :: rest) := by
+  apply C05_string_roundtrip_cons
+  intro h; subst h; revert hc; decide
 
 example : pyScanStr (pyReprStr (fun _ => true) "it's \"q\" \\ \t é").toList
     = some ("it's \"q\" \\ \t é", []) := by decide
